@@ -59,6 +59,16 @@ func content(desc string) []byte {
 	if strings.HasPrefix(desc, "link:") { // the target text of a symbolic-link entry
 		return []byte(desc[5:])
 	}
+	if strings.HasPrefix(desc, "rep:") { // "rep:<len>:<period>": a highly compressible file (period 0: all zero bytes)
+		f := strings.Split(desc, ":")
+		n, _ := strconv.Atoi(f[1])
+		per, _ := strconv.Atoi(f[2])
+		b := make([]byte, n)
+		for i := 0; per > 0 && i < n; i++ {
+			b[i] = byte(1 + (i%per)*7)
+		}
+		return b
+	}
 	parts := strings.SplitN(desc, ":", 2)
 	n, _ := strconv.Atoi(parts[0])
 	seed, _ := strconv.ParseUint(parts[1], 10, 64)
@@ -660,6 +670,14 @@ func main() {
 			c = genLex(prng.New(fl.Seed, "C20lex", i))
 		}
 		done[k]++
+		id++
+		c.ID = id
+		run(c)
+	}
+	// directed: trees with one large file that compresses extremely well (all zeros / a short period) next to small ones
+	for i, desc := range []string{"rep:1048577:0", "rep:2097152:5", "rep:3145745:1", "rep:6291456:0"} {
+		c := genTree(prng.New(fl.Seed, "C20treebig", uint64(i)), false)
+		c.Items = append(c.Items, Item{P: fmt.Sprintf("big%d.bin", i), C: desc})
 		id++
 		c.ID = id
 		run(c)
